@@ -71,6 +71,8 @@ pub fn req_strategy(big: bool) -> BoxedStrategy<ReqGen> {
     ];
     let hval = prop_oneof![4 => "[ -~]{0,40}", 1 => "[a-z]{0,8}: [a-z]{0,8}", 1 => "üñí [a-z]{0,10}", 1 => Just("host: evil.example".to_string())];
     let max_headers = if big { 40 } else { 8 };
+    // (the Host header has a generator of its own below: a random name that happens to spell it is renamed)
+    let hname = hname.prop_map(|n| if n.eq_ignore_ascii_case("host") { "Hosts".to_string() } else { n });
     let headers = proptest::collection::vec((hname, 0u8..4, hval.prop_map(|v| v.trim().to_string())), 0..max_headers);
     let host_name = prop_oneof![4 => Just("Host"), 2 => Just("host"), 1 => Just("HOST"), 1 => Just("hOsT")].prop_map(|s| s.to_string());
     let host_header = proptest::option::weighted(0.7, (any::<u8>(), host_name, 0u8..4));
